@@ -2,8 +2,8 @@
 import os, re, subprocess, time
 from . import kani as _kani
 
-def replay_engine(crate, scenario, oid, what):
-    """bounded execution of the real code through replay/<crate> (a FALLBACK: never counted as proof)"""
+def replay_engine(crate, scenario, oid, what, label="BOUNDED (fallback, consulted because the deductive check was undecided): "):
+    """execution of the real code through replay/<crate>: a bounded FALLBACK, or the validation of a stated environment assumption (never counted as proof)"""
     def eng(prop, tier, work):
         out = {"obligations": {}, "violations": [], "tool_errors": [], "cmds": [], "trusted": [], "functions": [], "coverage": {}}
         here = os.path.dirname(os.path.dirname(os.path.abspath(__file__)))
@@ -15,7 +15,7 @@ def replay_engine(crate, scenario, oid, what):
         m = re.search(r"RESULT %s (ok|VIOLATED)(.*)" % re.escape(scenario), p.stdout)
         if not m:
             out["tool_errors"].append("fallback %s: no result: %s" % (scenario, (p.stdout + p.stderr)[-400:])); return out
-        out["obligations"][oid] = {"unit": "replay/" + crate, "clause": "BOUNDED (fallback, consulted because the deductive check was undecided): " + what, "instances": 1,
+        out["obligations"][oid] = {"unit": "replay/" + crate, "clause": label + what, "instances": 1,
                                    "ok": m.group(1) == "ok", "back_end": "execution of the real code, bounded", "kind": "bounded"}
         if m.group(1) != "ok":
             out["violations"].append({"property": prop, "obligation": oid, "unit": "replay/" + crate, "item": None, "verus_message": "bounded execution found a failing input",
@@ -163,6 +163,9 @@ PROPS = {
                 claim="Verus proves the on-busy block sends exactly the documented controls per (running, mode): idle -> Start; do-nothing -> nothing; signal -> the configured signal only; restart -> graceful restart with the stop signal/timeout; queue -> at most one follow-up task, which waits for the current run to end and then starts one run; --signal/-r select the mode; start-up event sent iff not --postpone (structural); non-overlap is C04's invariant (same obligations)",
                 trusted="stand-ins in prelude/cliaction_env.rs (Job handle as a control log, atomics), prelude/task_env.rs"),
     "C08": dict(units=["actionloop", "cliaction", "task", "flag"], level="proof",
+                engines=[replay_engine("supervisor", "grouped_graceful_stop_leaves_no_member", "C08.assumption.no_group_member_outlives_a_graceful_stop",
+                                       "after stop_with_signal + delete of a grouped command no member of its process group is left (one history, executed on the real supervisor with real processes)",
+                                       label="ASSUMPTION VALIDATED BY EXECUTION (OS / process-wrap behaviour no contract here can express; one history): ")],
                 assumptions=TASK_ASSUME + ["action::worker is proved against stand-ins for LateJoinSet/HashMap/handler: a graceful quit spawns one task per held job (stop_with_signal(signal, grace) then delete().await: item quit_job_task), joins them, joins every job task, then returns; an abort returns at once. That the main task then ends (watchexec.rs select/abort of the other workers) and that dropping LateJoinSet aborts the job tasks and kill_on_drop kills their children is tokio/process-wrap behaviour: NOT decided",
                              "time bound: each quit task ends when its delete ticket resolves; that this happens within the grace periods is C06/C07/C09 (unit task: timers, tickets) composed by reading, not by one proof",
                              "process groups: signals and kills go to the group via process-wrap (command/conversions.rs wrappers: C18 decides the wrapping). Whether group members other than the leader outlive a graceful stop when the leader exits inside the grace period is OS/process-wrap behaviour outside any contract here: NOT decided (see DESIGN appendix, D9)",
